@@ -15,6 +15,9 @@ from .rustscan import RustFile, ScanError, mask, match_close, strip_comments, no
 
 REPO = os.environ.get('VX_REPO', '/repo')
 VERIF = os.path.dirname(os.path.dirname(os.path.abspath(__file__)))
+# where generated units, evidence and replay files go (default: /verif itself); VX_REPO + VX_OUT let a scratch
+# worktree be checked without touching /repo or the committed evidence (used for the seeded-change regression)
+OUT = os.environ.get('VX_OUT', VERIF)
 
 
 CONST_RENAMES = []
@@ -367,6 +370,40 @@ def rule_enumerate_find_filter_map(body, applied):
         applied.append({'rule': 'R8', 'pattern': '%s.iter().enumerate().%s(|(%s, %s)| ..)' % (x, which, i, t),
                         'closure_body_sha256': hashlib.sha256(norm_ws(expr).encode()).hexdigest()[:16]})
         k += 1
+    return body
+
+
+def rule_matches_macro(body, applied):
+    """R27: `matches!(E, PAT)` / `matches!(E, PAT if G)` -> `(match E { PAT [if G] => true, _ => false })`, which is the
+    definition of std's matches! (the macro argument is otherwise opaque to the verus! syntax transformation)."""
+    n = 0
+    while True:
+        m, _ = mask(body)
+        mm = re.search(r'\bmatches!\(', m)
+        if not mm:
+            break
+        op = mm.end() - 1
+        cp = match_close(m, op)
+        inner_m = m[op + 1:cp]
+        # split at the first top-level comma
+        depth = 0
+        cut = None
+        for i, c in enumerate(inner_m):
+            if c in '([{':
+                depth += 1
+            elif c in ')]}':
+                depth -= 1
+            elif c == ',' and depth == 0:
+                cut = i
+                break
+        if cut is None:
+            raise GenError('R27: matches! without a pattern')
+        inner = body[op + 1:cp]
+        expr, pat = inner[:cut].strip(), inner[cut + 1:].strip().rstrip(',')
+        body = body[:mm.start()] + '(match %s { %s => true, _ => false })' % (expr, pat) + body[cp + 1:]
+        n += 1
+    if n:
+        applied.append({'rule': 'R27', 'pattern': 'matches!(E, P) -> match E { P => true, _ => false }', 'count': n})
     return body
 
 
@@ -857,6 +894,13 @@ def extract_type(kind, name, relpath, opts, info):
         out.append('pub ' + decl.strip())
         if 'clonespec' in opts:
             out.append('impl Clone for %s { #[verifier::external_body] fn clone(&self) -> (r: Self) ensures r == *self { unimplemented!() } }' % name)
+        if 'partialeqspec' in opts:
+            if 'PartialEq' not in derives:
+                raise GenError('enum %s: template asks for derived PartialEq but source derives %s' % (name, derives))
+            out.append('impl PartialEqSpecImpl<%s> for %s { open spec fn obeys_eq_spec() -> bool { true } open spec fn eq_spec(&self, o: &%s) -> bool { *self == *o } }' % (name, name, name))
+            out.append('impl PartialEq for %s { #[verifier::external_body] fn eq(&self, o: &%s) -> (r: bool) { unimplemented!() } }' % (name, name))
+            out.append('impl Eq for %s {}' % name)
+            info['assumptions'].append('derive(PartialEq) on %s is structural (a == b iff same variant and equal fields)' % name)
         for v, t in from_variants:
             for pat, rep in TYPE_MAP:
                 t = re.sub(pat, rep, t)
@@ -975,6 +1019,7 @@ def emit_fn(contract, verified, info, key_override=None, skip_sigcheck_name=None
     body = rule_iter_chains(body, applied)
     body = rule_defunctionalise(body, applied)
     body = rule_and_then_chain(body, applied)
+    body = rule_matches_macro(body, applied)
     body = rule_for_zip_enumerate(body, applied)
     body = rule_enumerate_find_filter_map(body, applied)
     body = rule_for_over_vec(body, applied)
@@ -987,7 +1032,10 @@ def emit_fn(contract, verified, info, key_override=None, skip_sigcheck_name=None
     rec['clauses'] = len(rec['labels'])
     info['functions'].append(rec)
     if info.get('variant') == 'vacuity':
-        head = vacuous_head(head)
+        # reachability probe behind the precondition: an assertion that MUST fail is placed at the start of the body;
+        # if it verifies, the requires clause is contradictory (every postcondition would hold vacuously)
+        ob = body.index('{')
+        body = body[:ob + 1] + '\n    proof { let vacuity_probe = 0int; assert(vacuity_probe == 1); }' + body[ob + 1:]
     return '//@@BEGIN %s\n' % (key_override or contract.key) + head + '\n' + body + '\n//@@END %s\n' % (key_override or contract.key)
 
 
@@ -1013,7 +1061,7 @@ STUBREST_SKIP_FILES = {'template.vc', 'interp_sig.vc', 'asm.vc'}
 def expand(unit, db=None, outdir=None, variant=None):
     """Generate work/<unit>.rs.  Returns (path, info)."""
     db = db if db is not None else load_contracts()
-    outdir = outdir or os.path.join(VERIF, 'work')
+    outdir = outdir or os.path.join(OUT, 'work')
     os.makedirs(outdir, exist_ok=True)
     del CONST_RENAMES[:]
     info = {'unit': unit, 'variant': variant, 'functions': [], 'stubs': [], 'types': [], 'assumptions': [], 'includes': []}
